@@ -165,7 +165,11 @@ def cases(tier, seed):
     rng = derive_rng("C11cells", seed)
     rng.shuffle(cells)
     # canaries for fixed findings stay in the rotation: (from_array, identity, head3), (from_pandas, add1, head7_k2), (from_pandas, bcast_scalar_series, head3)
-    first = [("from_array", "identity", "head3"), ("from_pandas", "add1", "head7_k2"), ("from_pandas", "bcast_scalar_series", "head3"), ("from_pandas", "shuffle", "slice")]
+    first = [("from_array", "identity", "head3"), ("from_pandas", "add1", "head7_k2"), ("from_pandas", "bcast_scalar_series", "head3"), ("from_pandas", "shuffle", "slice"),
+             # head / tail of sorted frames over more partitions than one tree-reduction level takes
+             ("from_pandas_many", "sort_values", "tail3"), ("from_pandas_many", "set_index", "tail3"), ("from_pandas_many", "sort_values", "head3"),
+             ("from_pandas_many", "set_index", "head7"), ("from_pandas_many", "sort_values_desc", "tail1"), ("from_pandas_many", "sort_values_na_first", "tail3"),
+             ("from_pandas_many", "sort_values_na_first", "head3"), ("from_pandas_many", "cumsum", "tail3"), ("from_pandas_many", "bcast_scalar", "tail1")]
     for s, c, sel in first + cells[: CONFIG[tier]["cells"]]:
         yield {"source": s, "chain": c, "sel": sel, "seed": seed}
 
